@@ -179,8 +179,8 @@ def _facts():
         cut = set()
         for n in ast.walk(f_stokes):
             if isinstance(n, ast.Compare) and isinstance(n.ops[0], ast.Gt) and 'np.abs' in src(n.left):
-                if not isinstance(n.comparators[0], ast.Constant):
-                    raise TranslationError('stokes: extent cut-off is not a literal: ' + src(n))
+                if not isinstance(n.comparators[0], ast.Constant) or not isinstance(n.comparators[0].value, (int, float)):
+                    raise TranslationError('stokes: extent cut-off is not a numeric literal: ' + src(n))
                 cut.add(n.comparators[0].value)
         if len(cut) != 1:
             raise TranslationError('stokes: extent cut-off not unique')
@@ -198,9 +198,12 @@ def _facts():
 
     def g_coin():
         f_coin = func(GEOM, '_coincidence_check')
-        thr = [d.value for a, d in zip(f_coin.args.args[-len(f_coin.args.defaults):], f_coin.args.defaults)
+        thr = [d for a, d in zip(f_coin.args.args[-len(f_coin.args.defaults):], f_coin.args.defaults)
                if a.arg == 'thres']
-        return {'coincidenceThreshold': thr[0]}
+        if len(thr) != 1 or not isinstance(thr[0], ast.Constant) or isinstance(thr[0].value, bool) \
+                or not isinstance(thr[0].value, (int, float)):
+            raise TranslationError('coincidence threshold is not a numeric literal: ' + (src(thr[0]) if thr else '?'))
+        return {'coincidenceThreshold': thr[0].value}
     group(['coincidenceThreshold'], g_coin)
     def g_exchange_params():
         """calculate_energy_exchange: are the three stored parameters written only where the
@@ -264,8 +267,13 @@ def generate():
 
     def emit(k, line):
         if k in facts:
-            t.append(line(facts[k]))
-        else:
+            try:
+                t.append(line(facts[k]))
+                return
+            except Exception as e:      # a value the emitter cannot write down: omit the fact
+                errors[k] = 'cannot emit %r: %r' % (facts[k], e)
+                del facts[k]
+        if True:
             t.append('-- NOT TRANSLATED (omitted on purpose): %s: %s' % (k, errors.get(k, '?').replace('\n', ' ')))
 
     for k in ('initRounding', 'exchangeRounding', 'collectRounding'):
